@@ -119,8 +119,11 @@ def close(cls, x, y, flt):
 
 
 def laws(cases):
-    """each case: cls, a, b, c, flt, star(bool); returns list of failed law names per case."""
+    """each case: cls, a, b, c, flt, star(bool); returns list of failed law names per case.
+    Besides the stateless laws, the accumulation patterns the library uses (`x = R.zero; x += a`,
+    `x = R.one; x *= a`) are exercised and the class constants are checked to be unchanged."""
     out = []
+    base = consts()
     for cs in cases:
         cls, flt = cs["cls"], cs.get("flt", False)
         C = getattr(S, cls)
@@ -144,11 +147,29 @@ def laws(cases):
         if cs.get("star"):
             checks["star_l"] = (lambda: star(cls, a), lambda: one + a * star(cls, a))
             checks["star_r"] = (lambda: star(cls, a), lambda: one + star(cls, a) * a)
+        def acc_add():
+            t = zero
+            t += a
+            t += b
+            return t
+
+        def acc_mul():
+            t = one
+            t *= a
+            t *= b
+            return t
+
+        checks["inplace_add"] = (acc_add, lambda: (zero + a) + b)
+        checks["inplace_mul"] = (acc_mul, lambda: (one * a) * b)
         bad = []
         for nm, (l, r) in checks.items():
             x, y = E(l), E(r)
             if not close(cls, x, y, flt):
                 bad.append({"law": nm, "lhs": x, "rhs": y})
+        now = consts()
+        if now != base:
+            bad.append({"law": "constants-mutated", "lhs": now.get(cls), "rhs": base.get(cls)})
+            base = now
         out.append(bad)
     return out
 
